@@ -62,21 +62,34 @@ def h_factory(N, T, which):
     return Harness("aff_%s_%s_%d" % (which, T, N), args, body, out=(T, N * (N + 1)), meta={"kind": which, "N": N, "T": T})
 
 
-def h_layer(N, T, M):
+def h_layer(N, T, M, route="direct"):
     args = mat_args('A', N, T) + [(T, ('c', j)) for j in range(N)] + [("std::uint64_t", 'tag')]
     nv = N * (N + 1)
     body = """  %s
-  using P = verif::vprobe<%s, %d, float, %d>;
-  using B = affine<P>;
-  B::owning_data_t o(A, P::owning_data_t(P::configuration_t{a%d}));
+  %s
   B::non_owning_data_t v(o);
   auto r = v.at({%s});
-  %s""" % (mat_build("A", 0, N, T), T, N, M, nv + N, ", ".join("a%d" % (nv + j) for j in range(N)), " ".join("out[%d] = r[%d];" % (q, q) for q in range(M)))
-    return Harness("aff_layer_%s_%d_%d" % (T, N, M), args, body, out=("float", M), meta={"kind": "layer", "N": N, "T": T, "M": M})
+  %s""" % (mat_build("A", 0, N, T), harness.construct(route, "affine", "%s, %d, float, %d" % (T, N, M), "A", "a%d" % (nv + N)),
+           ", ".join("a%d" % (nv + j) for j in range(N)), " ".join("out[%d] = r[%d];" % (q, q) for q in range(M)))
+    return Harness("aff_layer_%s_%d_%d_%s" % (T, N, M, route), args, body, out=("float", M), meta={"kind": "layer", "N": N, "T": T, "M": M, "route": route})
 
 
 def P(a):
     return ir.Poly.atom(a)
+
+
+def poly_mismatch(term, exp, names):
+    """None if the term equals the expected polynomial in every case of its configuration-dependent branches, else text"""
+    cases = ir.poly_cases(term, 'real')
+    if cases is None:
+        got = ir.to_poly(term, 'real')
+        return None if got == exp else got.show(names)
+    for subst, got in cases:
+        e = ir.poly_subst(exp, subst)
+        if got != e:
+            when = " when " + ", ".join("%s = %s" % (ir.show(a, names), ir.show(b, names)) for a, b in subst.items()) if subst else (" on one branch" if len(cases) > 1 else "")
+            return got.show(names) + when
+    return None
 
 
 def declare(rep):
@@ -95,6 +108,10 @@ def harnesses(tier):
     for N in Ns:
         for T in Ts:
             hs += [h_apply(N, T), h_compose(N, T), h_factory(N, T, "translation"), h_factory(N, T, "scaling"), h_factory(N, T, "identity"), h_layer(N, T, (N % 4) + 1)] + ([h_layer(N, T, 1)] if N > 1 else [])
+    # the layer contract along every other construction route (quick: one dimension per route)
+    for i, route in enumerate(harness.ROUTES[1:]):
+        for N in (Ns if tier != "quick" else (2 + i % 2,)):
+            hs.append(h_layer(N, "float" if (i + N) % 2 else "double", (N % 4) + 1, route))
     return hs
 
 
@@ -104,7 +121,7 @@ def run(rep, tier):
     for h in hs:
         N, T, kind = h.meta["N"], h.meta["T"], h.meta["kind"]
         tsz = 4 if T == "float" else 8
-        inst = "%s<%d,%s>" % (kind, N, T)
+        inst = "%s<%d,%s>" % (kind, N, T) + (" via " + h.meta["route"] if h.meta.get("route", "direct") != "direct" else "")
         if h.error:
             loc, msg = harness.first_error(h)
             rep.fail("C09.compile", inst, loc, "does not compile: " + msg)
@@ -127,12 +144,12 @@ def run(rep, tier):
                 exp = A(i, N)
                 for j in range(N):
                     exp = exp + A(i, j) * P(h.atom(('v', j)))
-                got = ir.to_poly(outs.get(tsz * i, ('undef',)), 'real')
+                bad = poly_mismatch(outs.get(tsz * i, ('undef',)), exp, names)
                 ii = "%s row %d" % (inst, i)
-                if got != exp:
-                    rep.fail("C09.apply", ii, ALG, "row %d of A*v is %s, expected %s" % (i, got.show(names), exp.show(names)))
+                if bad is not None:
+                    rep.fail("C09.apply", ii, ALG, "row %d of A*v is %s, expected %s" % (i, bad, exp.show(names)))
                 else:
-                    rep.ok("C09.apply", ii, sample={"instance": ii, "polynomial": got.show(names)} if N == 2 and i == 0 else None)
+                    rep.ok("C09.apply", ii, sample={"instance": ii, "polynomial": exp.show(names)} if N == 2 and i == 0 else None)
         elif kind == "compose":
             B = lambda i, j: P(h.atom(('B', i, j)))
             for i in range(N):
@@ -142,10 +159,10 @@ def run(rep, tier):
                         exp = exp + A(i, k) * B(k, j)
                     if j == N:
                         exp = exp + A(i, N)
-                    got = ir.to_poly(outs.get(tsz * (i * (N + 1) + j), ('undef',)), 'real')
+                    bad = poly_mismatch(outs.get(tsz * (i * (N + 1) + j), ('undef',)), exp, names)
                     ii = "%s entry (%d,%d)" % (inst, i, j)
-                    if got != exp:
-                        rep.fail("C09.compose", ii, ALG, "entry (%d,%d) of A*B is %s, expected %s" % (i, j, got.show(names), exp.show(names)))
+                    if bad is not None:
+                        rep.fail("C09.compose", ii, ALG, "entry (%d,%d) of A*B is %s, expected %s" % (i, j, bad, exp.show(names)))
                     else:
                         rep.ok("C09.compose", ii)
         elif kind in ("translation", "scaling", "identity"):
@@ -167,23 +184,27 @@ def run(rep, tier):
             M = h.meta["M"]
             sinks = s.opaque_calls("_ZN5verif4sink")
             others = [c for c in s.calls if c not in sinks]
-            if len(sinks) != 1 or sinks[0].cond != ir.TRUE or others or len(sinks[0].args) != N + 1 or sinks[0].args[0] != h.atom('tag'):
-                rep.fail("C09.layer", inst, LAYER, "expected exactly one unconditional backend query with %d components on the view's backend" % N)
+            cases = ir.merge_calls(sinks) if sinks else None
+            if not cases or others or any(len(c.args) != N + 1 or c.args[0] != h.atom('tag') for c in sinks):
+                rep.fail("C09.layer", inst, LAYER, "expected exactly one backend query with %d components on the view's backend on every path" % N)
                 continue
-            call = sinks[0]
             good = True
-            for i in range(N):
-                exp = A(i, N)
-                for j in range(N):
-                    exp = exp + A(i, j) * P(h.atom(('c', j)))
-                got = ir.to_poly(call.args[1 + i], 'real')
-                if got != exp:
-                    rep.fail("C09.layer", "%s arg %d" % (inst, i), ir.where(call.inst), "backend queried at component %d = %s, expected %s" % (i, got.show(names), exp.show(names)))
-                    good = False
-            for q in range(M):
-                if outs.get(4 * q) != ('ld', ('ret', call.n), 4 * q, 4, 'float', 0):
-                    rep.fail("C09.layer", "%s out[%d]" % (inst, q), LAYER, "result component %d is not the queried value's component" % q)
-                    good = False
+            for assign, subst0, call in cases:
+                for i in range(N):
+                    exp = A(i, N)
+                    for j in range(N):
+                        exp = exp + A(i, j) * P(h.atom(('c', j)))
+                    bad = poly_mismatch(ir._resolve(call.args[1 + i], assign, subst0, {}), ir.poly_subst(exp, subst0), names)
+                    if bad is not None:
+                        when = " when " + ", ".join("%s = %s" % (ir.show(a, names), ir.show(b, names)) for a, b in subst0.items()) if subst0 else ""
+                        rep.fail("C09.layer", "%s arg %d" % (inst, i), ir.where(call.inst), "backend queried at component %d = %s%s, expected %s" % (i, bad, when, exp.show(names)))
+                        good = False
+                for q in range(M):
+                    if ir._resolve(outs.get(4 * q, ('undef',)), assign, {}, {}) != ('ld', ('ret', call.n), 4 * q, 4, 'float', 0):
+                        rep.fail("C09.layer", "%s out[%d]" % (inst, q), LAYER, "result component %d is not the queried value's component" % q)
+                        good = False
+                if not good:
+                    break
             if good:
                 rep.ok("C09.layer", inst)
     return hs
